@@ -22,9 +22,9 @@ bounded C03 5 6 sync2.Map sequential contract vs builtin map, all call sequences
 // BOUNDED stand-in (randomised schedules; never counted as proved) for the ASSUMED atomicity of sync2.Map that the
 // concurrent wrappers rely on: a key living only in the dirty map is loaded / loaded-or-stored / deleted / stored /
 // ranged over by several goroutines while others force promotions; every outcome is checked against an atomic map.
-bounded C03 40000 300000 sync2.Map atomic contract under concurrent use (operands of the set algebra are only read): rounds of 5 scenario families with forced promotions
-bounded C05 40000 300000 sync2.Map atomic contract under concurrent use: rounds of 5 scenario families with forced promotions
-bounded C09 40000 300000 sync2.Map atomic contract under concurrent use: rounds of 5 scenario families with forced promotions
+bounded C03 40000 300000 sync2.Map atomic contract under concurrent use (operands of the set algebra are only read): rounds of 6 scenario families with forced promotions
+bounded C05 40000 300000 sync2.Map atomic contract under concurrent use: rounds of 6 scenario families with forced promotions
+bounded C09 40000 300000 sync2.Map atomic contract under concurrent use: rounds of 6 scenario families with forced promotions
 
 func Map.Load
   trusted abstract contract of sync2.Map: sequential behaviour proved by the #impl refinement below, atomicity (C04) assumed - interference is checked at lock acquisition only (#lk variants)
@@ -706,4 +706,66 @@ func Map.Range#lk
   loop 0 invariant forall i :: {logarg(f, 0, i)} 0 <= i && i < loglen(f) ==> visited[logarg(f, 0, i)] && present(m, logarg(f, 0, i)) && logarg(f, 1, i) == cval(m, logarg(f, 0, i)) && f(logarg(f, 0, i), logarg(f, 1, i))
   loop 0 invariant forall i, j :: {logarg(f, 0, i), logarg(f, 0, j)} 0 <= i && i < j && j < loglen(f) ==> logarg(f, 0, i) != logarg(f, 0, j)
   loop 0 invariant forall k K :: {visited[k]} visited[k] ==> has(rm(m), k) && (present(m, k) ==> (exists i :: 0 <= i && i < loglen(f) && logarg(f, 0, i) == k))
+
+// Interference on the entry's atomic cell (`opt cellhavoc`): before EVERY atomic pointer operation of these helpers the
+// cell m.p may have been changed by other goroutines (for the ...Locked helpers, which run with Map.mu held: by
+// anything but expunging or un-expunging, which need the mutex). What is checked: no run-time panic whatever the
+// others did, every write of the cell is a compare-and-swap - a blind atomic.StorePointer is an obligation
+// (`blind-store`) that holds only where the contract says what may be overwritten - and, for the Locked helpers, what
+// they report about "expunged" is true when they return. Lock-freedom (termination of the retry loops) is not shown.
+func entry.load#cc
+  property C03, C05, C09
+  opt cellhavoc on
+  requires m != nil && expunged != nil && !fresh(expunged) && !fresh(m)
+  ensures[zero] !ok ==> value == zero(T)
+  assigns heap
+
+func entry.tryStore#cc
+  property C03, C05, C09
+  opt cellhavoc on
+  requires m != nil && expunged != nil && !fresh(expunged) && !fresh(m) && i != nil && i != expunged
+  assigns heap
+  loop 0 invariant m != nil
+
+func entry.unexpungeLocked#cc
+  property C03, C05, C09
+  opt cellhavoc on
+  rely (old(m.p) == expunged) == (m.p == expunged)
+  requires m != nil && expunged != nil && !fresh(expunged) && !fresh(m)
+  ensures[live] m.p != expunged
+  assigns heap
+
+func entry.storeLocked#cc
+  property C03, C05, C09
+  opt cellhavoc on
+  opt blindstore overwritten != expunged
+  rely (old(m.p) == expunged) == (m.p == expunged)
+  requires m != nil && expunged != nil && !fresh(expunged) && !fresh(m) && m.p != expunged && i != nil && i != expunged
+  ensures[live] m.p != expunged
+  assigns heap
+
+func entry.tryLoadOrStore#cc
+  property C03, C05, C09
+  opt cellhavoc on
+  requires m != nil && expunged != nil && !fresh(expunged) && !fresh(m)
+  ensures[notok] !ok ==> !loaded
+  assigns heap
+  loop 0 invariant m != nil
+
+func entry.delete#cc
+  property C03, C05, C09
+  opt cellhavoc on
+  requires m != nil && expunged != nil && !fresh(expunged) && !fresh(m)
+  ensures[zero] !ok ==> value == zero(T)
+  assigns heap
+  loop 0 invariant m != nil
+
+func entry.tryExpungeLocked#cc
+  property C03, C05, C09
+  opt cellhavoc on
+  rely (old(m.p) == expunged) == (m.p == expunged)
+  requires m != nil && expunged != nil && !fresh(expunged) && !fresh(m)
+  ensures[result] isExpunged == (m.p == expunged)
+  assigns heap
+  loop 0 invariant m != nil && (p == expunged) == (m.p == expunged)
 @*/
